@@ -200,7 +200,14 @@ class Printer(object):
                         # cos(arccos x) = x on [-1, 1]
                         out.append('(assert (=> (and (= %s %s) (<= (- 1.0) %s) (<= %s 1.0)) (= %s %s)))' % (y, r, x, x, P(c), x))
                 elif f == 'arctan':
+                    x = xs[0]
                     out.append('(assert (and (< (- (/ pi 2.0)) %s) (< %s (/ pi 2.0))))' % (r, r))
+                    # sign, and |arctan t| <= |t|
+                    out.append('(assert (and (=> (> %s 0.0) (and (> %s 0.0) (< %s %s))) (=> (< %s 0.0) (and (< %s 0.0) (> %s %s))) (=> (= %s 0.0) (= %s 0.0))))' % (x, r, r, x, x, r, r, x, x, r))
+                    # odd: arctan(-t) = -arctan(t) for pairs of occurring terms
+                    for other in lst:
+                        if other is not s:
+                            out.append('(assert (=> (= %s (- %s)) (= %s (- %s))))' % (P(other.args[1]), x, P(other), r))
                 elif f == 'exp':
                     out.append('(assert (> %s 0.0))' % r)
             # sin/cos pythagoras
